@@ -61,6 +61,7 @@ structure PState where
   loopLayer : Nat := 0
   blockDepth : Int := 0
   loopInfo : List Int := []
+  codeStack : List Nat := []      -- loopLayer saved by CodePush
   errs : Bool := false
   trace : List Nat := []          -- reversed
   labels : List (String × Nat × Nat) := []
@@ -129,6 +130,8 @@ def runEff (env : Env) (s : PState) (e : Eff) : PState :=
     { s with trace := op :: s.trace, blockDepth := bd }
   | .loopBegin => { s with loopLayer := s.loopLayer + 1, loopInfo := s.blockDepth :: s.loopInfo }
   | .loopEnd => { s with loopLayer := s.loopLayer - 1, loopInfo := s.loopInfo.tail }
+  | .codePush => { s with codeStack := s.loopLayer :: s.codeStack, loopLayer := 0 }
+  | .codePop => (match s.codeStack with | l :: r => { s with loopLayer := l, codeStack := r } | [] => { s with broken := some "CodePop on empty stack" })
   | .breakCont =>
     if s.loopLayer == 0 then { s with errs := true }
     else
